@@ -33,6 +33,32 @@ func isTraceFn(fn *ssa.Function) bool {
 	return strings.HasSuffix(core.TypeName(fn.Signature.Recv().Type()), "/v2.TraceConfiguration")
 }
 
+func purityExceptOracle(p *core.Prog, scope []string) func(fn *ssa.Function, owned int) bool {
+	return func(fn *ssa.Function, owned int) bool {
+		e := eng.NewExplorer(p, scope...)
+		ps := make([]eng.Prov, len(fn.Params))
+		for i, prm := range fn.Params {
+			if eng.PointerLike(prm.Type()) {
+				ps[i] = eng.Shared
+				if i == owned {
+					ps[i] = eng.Fresh
+				}
+			}
+		}
+		e.Run(fn, ps)
+		if len(e.Undecided) > 0 {
+			return false
+		}
+		for _, v := range e.Viol {
+			if v.Kind == "append" && v.Instr != nil && eng.IdentityAppend(v.Instr) {
+				continue
+			}
+			return false
+		}
+		return true
+	}
+}
+
 func purityOracle(p *core.Prog, scope []string) func(fn *ssa.Function) bool {
 	cache := map[*ssa.Function]bool{}
 	return func(fn *ssa.Function) bool {
@@ -96,6 +122,7 @@ func runC04(c *Ctx) {
 	// ---- R04.4: map-order determinism ----------------------------------------------
 	oa := eng.NewOrderAnalysis(p, explored)
 	oa.Pure = purityOracle(p, matchScope)
+	oa.PureExcept = purityExceptOracle(p, matchScope)
 	oa.Observer = isTraceFn
 	oa.FD = func(s *eng.SortSite, field string) (bool, string) { return fdTable(c, p, s, field) }
 	oa.Run(matchFn)
@@ -164,7 +191,7 @@ func fdTable(c *Ctx, p *core.Prog, s *eng.SortSite, field string) (bool, string)
 		return false, ""
 	}
 	et := core.TypeName(s.Cmp.ElemType)
-	if strings.HasSuffix(et, "/v2.matchRange") && p.IsFn(s.Fn, v2pkg, "targetMatchedRanges") {
+	if et != "" && p.IsFn(s.Fn, v2pkg, "targetMatchedRanges") {
 		switch field {
 		case "TargetEnd":
 			// verified: every element gets TokensClaimed = TargetEnd - TargetStart before the sort
@@ -344,8 +371,11 @@ func timeoutDisabled(fn *ssa.Function, recv ssa.Value, call ssa.CallInstruction)
 
 // checkTokenIDUses: R04.6.
 func checkTokenIDUses(c *Ctx, p *core.Prog) {
-	tid := p.Named(v2pkg, "tokenID")
-	if !c.R.Anchor(tid != nil, "v2.tokenID") {
+	var tid *types.Named
+	if r := rolesOf(p); r.ok {
+		tid = r.tokenID
+	}
+	if !c.R.Anchor(tid != nil, "v2 token id type (key type of the dictionary)") {
 		return
 	}
 	isTID := func(t types.Type) bool { return types.Identical(t, tid) }
